@@ -554,19 +554,21 @@ def check(prop, tier, seed, replay=None):
 
 
 def setup():
+    """Builds the Lean library and, per property, proofs + driver + harness binary (warming the Go
+    build cache).  A failure of one property is reported but does not fail the setup: that
+    property's own check will report it (as a broken obligation / harness)."""
     rc, out = sh(["lake", "build"], cwd=LEAN)
     log(out[-2000:])
     if rc != 0:
         return 1
-    props = all_props()
-    worst = 0
-    for prop in props:
+    failed = []
+    for prop in all_props():
         cfg = load_cfg(prop)
         lean = lean_stage(cfg)
         log(f"[setup] {prop}: lean ok={lean['ok']}")
         if not lean["ok"]:
             log(lean["log"][-2000:])
-            worst = 1
+            failed.append(prop + ":lean")
         work = os.path.join(VERIF, ".work", prop)
         os.makedirs(work, exist_ok=True)
         for idx, run in enumerate(cfg["runs"]):
@@ -574,8 +576,10 @@ def setup():
             log(f"[setup] {prop}: harness {run['pkg']} build ok={ok}")
             if not ok:
                 log(out[-2000:])
-                worst = 1
-    return worst
+                failed.append(prop + ":harness")
+    if failed:
+        log(f"[setup] WARNING: not everything built: {failed} (the affected checks will report it)")
+    return 0
 
 
 def main(argv):
